@@ -2,8 +2,11 @@
 
 #![allow(dead_code)]
 mod alloc;
+mod c13;
+mod c14;
 mod c19;
 mod common;
+mod endpoints;
 mod engine;
 mod model;
 mod palette;
@@ -11,6 +14,7 @@ mod refcbor;
 mod rng;
 mod runner;
 mod trace;
+mod traffic;
 mod util;
 
 use engine::{Engine, Tier};
@@ -19,9 +23,11 @@ use engine::{Engine, Tier};
 static GLOBAL: alloc::Counting = alloc::Counting;
 
 static C19: c19::C19 = c19::C19;
+static C13: c13::C13 = c13::C13;
+static C14: c14::C14 = c14::C14;
 
 fn engines() -> Vec<&'static dyn Engine> {
-    vec![&C19]
+    vec![&C13, &C14, &C19]
 }
 
 fn find(id: &str) -> Option<&'static dyn Engine> {
